@@ -313,9 +313,18 @@ func SSHPublicKey(info Info, data []byte) (Info, error) {
 	return info, nil
 }
 
-func UUIDValue(info Info, data []byte) (Info, error) {
+// parseUUID parses text that is a single UUID (surrounding whitespace ignored). uuid.Parse only looks at
+// the middle 36 bytes of the 38-byte form, so the braces are checked here.
+func parseUUID(data []byte) (uuid.UUID, error) {
 	s := strings.TrimSpace(string(data))
-	u, err := uuid.Parse(s)
+	if len(s) == 38 && (s[0] != '{' || s[37] != '}') {
+		return uuid.UUID{}, fmt.Errorf("invalid UUID format")
+	}
+	return uuid.Parse(s)
+}
+
+func UUIDValue(info Info, data []byte) (Info, error) {
+	u, err := parseUUID(data)
 	if err != nil {
 		return info, fmt.Errorf("uuid.Parse: %w", err)
 	}
